@@ -451,7 +451,15 @@ fn explore(script: &[String], bound: usize, counter: &AtomicU64, out: &Mutex<Vec
                     }
                     let prefix = &level[k];
                     let id = counter.fetch_add(1, Ordering::Relaxed);
-                    let obs = execute(script, prefix, id);
+                    let mut obs = execute(script, prefix, id);
+                    // a controller-side hiccup (our own hand-shake timing out on an overloaded
+                    // machine) is retried before it is allowed to end the run as a machinery error
+                    for _ in 0..2 {
+                        if obs.machinery.is_none() {
+                            break;
+                        }
+                        obs = execute(script, prefix, counter.fetch_add(1, Ordering::Relaxed));
+                    }
                     let points = obs.choice_points.clone();
                     let choices = obs.choices.clone();
                     let failed = obs.machinery.is_some();
@@ -508,7 +516,12 @@ pub fn run(args: &Args) -> i32 {
             let check_twice = thorough || n < 4 || !obs.complaints.is_empty();
             if check_twice {
                 replays_checked += 1;
-                let again = execute(&script, choices, counter.fetch_add(1, Ordering::Relaxed));
+                let mut again = execute(&script, choices, counter.fetch_add(1, Ordering::Relaxed));
+                let same = |a: &Observation, b: &Observation| a.machinery.is_none() && a.bestmoves.len() == b.bestmoves.len() && a.complaints.len() == b.complaints.len() && a.trace == b.trace;
+                if !same(&again, obs) {
+                    // one more attempt before calling the schedule non-reproducible
+                    again = execute(&script, choices, counter.fetch_add(1, Ordering::Relaxed));
+                }
                 if again.machinery.is_some() || again.bestmoves.len() != obs.bestmoves.len() || again.complaints.len() != obs.complaints.len() || again.trace != obs.trace {
                     eprintln!("MACHINERY: schedule {choices:?} of {name} is not reproducible: {:?} vs {:?}", obs.trace, again.trace);
                     eprintln!("  first: {:?}\n  again: {:?} {:?}", obs.complaints, again.complaints, again.machinery);
